@@ -125,7 +125,8 @@ class SigWorld(HistoryWorld):
             st.queue.append({'op': 'check'})
             st.queue.append({'op': 'heal_check'})
             st.queue.append({'op': 'former_validator', 'who': ctx.rng.randrange(3), 'weight': ctx.rng.choice([1, 5, 10 ** 6, 2 ** 62])})
-            st.queue.append({'op': 'replay_sibling', 'which': ctx.rng.choice(['file', 'root']), 'byte': ctx.rng.randrange(32), 'subset': ctx.rng.random() < 0.3})
+            st.queue.append({'op': 'replay_sibling', 'which': ctx.rng.choice(['file', 'root']), 'byte': ctx.rng.randrange(32), 'subset': ctx.rng.random() < 0.3,
+                             'cursor': ctx.rng.random() < 0.5})
             return st.queue.pop(0)
         return None
 
@@ -328,9 +329,23 @@ class SigWorld(HistoryWorld):
             return   # reported by heal_check
         rh, fh = bytearray(st.blk.root_hash), bytearray(st.blk.file_hash)
         (fh if op['which'] == 'file' else rh)[op['byte'] % 32] ^= 0x01
-        sib = BlockIdExt(st.blk.workchain, st.blk.shard, st.blk.seqno, bytes(rh), bytes(fh))
+        if op.get('cursor'):
+            # the client keeps ONE block-id object as a cursor and advances it in place (its fields are plain attributes):
+            # the check must follow the identifier's current value, not the value it had when it was first checked
+            keep = (st.blk.root_hash, st.blk.file_hash)
+            try:
+                st.blk.root_hash, st.blk.file_hash = bytes(rh), bytes(fh)
+                sib = st.blk
+                ctx.probe('block-id-object-advanced-in-place-between-checks')
+            except Exception:   # an implementation with read-only identifiers has no such history
+                op = dict(op, cursor=False)
+                ctx.probe('block-id-object-is-read-only')
+        if not op.get('cursor'):
+            sib = BlockIdExt(st.blk.workchain, st.blk.shard, st.blk.seqno, bytes(rh), bytes(fh))
         ctx.fault('relay-replays-set-for-sibling-block-' + op['which'])
         ok, res = call(check_block_signatures, list(st.nodes), clean, sib)
+        if op.get('cursor'):
+            st.blk.root_hash, st.blk.file_hash = keep
         ctx.evaluated(1)
         ctx.obs(ok)
         if ok:
